@@ -1087,14 +1087,16 @@ theorem newNode_good {cfg : Cfg} (hr : Repaired cfg) {t : Tree} (h : WFTree t) (
   · exact good_same h _
   · rename_i hs
     have h0 := orphan_label_wf h hp hs
-    have g : Good _ (setParent cfg { t with label := updF t.label c l, parent := updF t.parent c none } c np) := by
+    have g : Good { t with label := updF t.label c l, parent := updF t.parent c none }
+        (setParent cfg { t with label := updF t.label c l, parent := updF t.parent c none } c np) := by
       cases np with
       | none => exact setParent_none_good hr h0 c
       | some p => exact setParent_some_good hr h0 c p
     simp only []
     split
     · rename_i t1 heq
-      exact ⟨fun _ => g.1 (by rw [heq]), fun hn => absurd rfl hn⟩
+      rw [heq] at g
+      exact ⟨fun _ => g.1 rfl, fun hn => absurd rfl hn⟩
     · exact ⟨fun hh => by simp_all, fun _ _ => rfl⟩
 
 end PwVerif.Tree
